@@ -89,27 +89,38 @@ CopiesOK(pre, post, args) ==
 \* post edges on the group, pre edges on the segment
 PostEdges(pre, post, s) == EdgeIdxOf(post, Group(pre, post, s))
 PreEdges(pre, s) == EdgeIdxOf(pre, {s})
-\* the edge e' of post is a copy of the edge e of pre
+\* the edge e1 of post is a copy of the edge e of pre
 CopyOf(e1, e, N, s) == EdgeCore(BackTo(e1, N, s)) = EdgeCore(e)
 
-\* "no link is invented": every edge on one of the k segments is a copy of an edge of the original
-NothingInvented(pre, post, s) ==
-  LET N == Group(pre, post, s) IN
-  \A j \in PostEdges(pre, post, s) : \E i \in PreEdges(pre, s) : CopyOf(post[j], pre[i], N, s)
+(* The operators below take a context x computed once per evaluation:
+     x.s the segment, x.k the factor, x.N the k segments of post (original + copies),
+     x.E the edges of the segment in pre, x.P the edges of post on a member of x.N,
+     x.pc / x.bc  the content of the edges x.E / of the edges x.P read back onto the original,
+     x.qc  the content of all edges of post                                           *)
+Ctx(pre, post, args) ==
+  LET s == args.seg
+      N == Group(pre, post, s)
+      E == PreEdges(pre, s)
+      P == EdgeIdxOf(post, N)
+      Q == {j \in Idx(post) : IsEdgeLine(post[j])} IN
+  [s |-> s, k |-> args.k, N |-> N, E |-> E, P |-> P,
+   pc |-> {<<i, EdgeCore(pre[i])>> : i \in E},
+   bc |-> {<<j, EdgeCore(BackTo(post[j], N, s))>> : j \in P},
+   qc |-> {<<j, EdgeCore(post[j])>> : j \in Q}]
+CoreIn(S, i) == (CHOOSE p \in S : p[1] = i)[2]
+CountCore(S, c) == Cardinality({p \in S : p[2] = c})
 
-\* the edge pre[i] of the segment, copied for member x of the group: present in post
+\* "no link is invented": every edge on one of the k segments is a copy of an edge of the original
+NothingInvented(x) == \A q \in x.bc : \E p \in x.pc : q[2] = p[2]
+
+\* the edge pre[i] of the segment, copied for member m of the group: present in post
 \* exactly as often as pre holds edges with the same content
-HasCopyFor(pre, post, s, i, x) ==
-  LET want == EdgeCore(SubstId(pre[i], s, x)) IN
-  Cardinality({j \in Idx(post) : IsEdgeLine(post[j]) /\ EdgeCore(post[j]) = want})
-    = Cardinality({j \in PreEdges(pre, s) : EdgeCore(pre[j]) = EdgeCore(pre[i])})
-\* a self-edge: some copy of it lies on x, both ends inside the group
-HasSelfCopyOn(pre, post, s, i, x) ==
-  LET N == Group(pre, post, s) IN
-  \E j \in PostEdges(pre, post, s) :
-     /\ CopyOf(post[j], pre[i], N, s)
-     /\ RefIdSet(post[j]) \subseteq N
-     /\ x \in RefIdSet(post[j])
+HasCopyFor(pre, x, i, m) ==
+  CountCore(x.qc, EdgeCore(SubstId(pre[i], x.s, m))) = CountCore(x.pc, CoreIn(x.pc, i))
+\* a self-edge: some copy of it lies on m, both ends inside the group
+HasSelfCopyOn(post, x, i, m) ==
+  LET c == CoreIn(x.pc, i) IN
+  \E q \in x.bc : q[2] = c /\ RefIdSet(post[q[1]]) \subseteq x.N /\ m \in RefIdSet(post[q[1]])
 
 \* the edges that distribution on end d may share out: dovetails of the segment on that end
 OnEnd(pre, s, i, d) == d # "none" /\ d \in DoveEndsOn(pre[i], s)
@@ -117,31 +128,27 @@ OnEnd(pre, s, i, d) == d # "none" /\ d \in DoveEndsOn(pre[i], s)
 \* "each carrying a copy of every dovetail and containment of the original to the same
 \*  neighbours with the same orientations and overlaps" -- for everything that is not
 \*  being distributed
-EdgesOK(pre, post, args, d) ==
-  LET s == args.seg
-      N == Group(pre, post, s) IN
-  /\ NothingInvented(pre, post, s)
-  /\ \A i \in PreEdges(pre, s) : ~OnEnd(pre, s, i, d) =>
-        \A x \in N : IF IsSelfEdge(pre[i], s) THEN HasSelfCopyOn(pre, post, s, i, x)
-                                              ELSE HasCopyFor(pre, post, s, i, x)
+EdgesOKx(pre, post, x, d) ==
+  \A i \in x.E : ~OnEnd(pre, x.s, i, d) =>
+     \A m \in x.N : IF IsSelfEdge(pre[i], x.s) THEN HasSelfCopyOn(post, x, i, m)
+                                              ELSE HasCopyFor(pre, x, i, m)
 
 \* "the links of that end are shared out among the copies so that every former neighbour
 \*  stays linked to at least one copy and no link is invented"
-DistOK(pre, post, args, d) ==
-  LET s == args.seg
-      N == Group(pre, post, s) IN
-  /\ NothingInvented(pre, post, s)
-  /\ \A i \in PreEdges(pre, s) : OnEnd(pre, s, i, d) =>
-        \E x \in N : \E j \in PostEdges(pre, post, s) :
-             /\ CopyOf(post[j], pre[i], N, s)
-             /\ x \in RefIdSet(post[j])
-             /\ IsSelfEdge(pre[i], s) => RefIdSet(post[j]) \subseteq N
+DistOKx(pre, post, x, d) ==
+  /\ \A i \in x.E : OnEnd(pre, x.s, i, d) =>
+        LET c == CoreIn(x.pc, i) IN
+        \E q \in x.bc : /\ q[2] = c
+                        /\ IsSelfEdge(pre[i], x.s) => RefIdSet(post[q[1]]) \subseteq x.N
   \* never more copies of a link than a full copy would make
-  /\ \A i \in PreEdges(pre, s) : (OnEnd(pre, s, i, d) /\ ~IsSelfEdge(pre[i], s)) =>
-        \A x \in N :
-          LET want == EdgeCore(SubstId(pre[i], s, x)) IN
-          Cardinality({j \in Idx(post) : IsEdgeLine(post[j]) /\ EdgeCore(post[j]) = want})
-            <= Cardinality({j \in PreEdges(pre, s) : EdgeCore(pre[j]) = EdgeCore(pre[i])})
+  /\ \A i \in x.E : (OnEnd(pre, x.s, i, d) /\ ~IsSelfEdge(pre[i], x.s)) =>
+        \A m \in x.N :
+          CountCore(x.qc, EdgeCore(SubstId(pre[i], x.s, m))) <= CountCore(x.pc, CoreIn(x.pc, i))
+
+EdgesOK(pre, post, args, d) ==
+  LET x == Ctx(pre, post, args) IN NothingInvented(x) /\ EdgesOKx(pre, post, x, d)
+DistOK(pre, post, args, d) ==
+  LET x == Ctx(pre, post, args) IN NothingInvented(x) /\ DistOKx(pre, post, x, d)
 
 EndsAllowed(policy) ==
   CASE policy = "off" -> {"none"}
@@ -150,13 +157,11 @@ EndsAllowed(policy) ==
     [] OTHER -> {"none", "L", "R"}          \* auto, equal: the choice of the end is gfapy's
 
 \* "with the read/fragment/k-mer counts of the segment and of those edges divided by k"
-CountsOK(pre, post, args) ==
-  LET s == args.seg
-      N == Group(pre, post, s)
-      want == DivCnt(SegLineOf(pre, s).cnt, args.k) IN
-  /\ \A i \in SegIdx(post) : post[i].name \in N => post[i].cnt = want
-  /\ \A j \in PostEdges(pre, post, s) :
-        \E i \in PreEdges(pre, s) : CopyOf(post[j], pre[i], N, s) /\ post[j].cnt = DivCnt(pre[i].cnt, args.k)
+CountsOKx(pre, post, x) ==
+  LET want == DivCnt(SegLineOf(pre, x.s).cnt, x.k) IN
+  /\ \A i \in SegIdx(post) : post[i].name \in x.N => post[i].cnt = want
+  /\ \A q \in x.bc : \E p \in x.pc : q[2] = p[2] /\ post[q[1]].cnt = DivCnt(pre[p[1]].cnt, x.k)
+CountsOK(pre, post, args) == CountsOKx(pre, post, Ctx(pre, post, args))
 
 \* "the rest of the graph is untouched": lines that mention neither the segment nor a copy
 RestOf(L, N) == BagOf(SelectSeq(L, LAMBDA l : ~MentionsAny(l, N)))
@@ -165,16 +170,19 @@ RestOK(pre, post, args) ==
 
 \* the set of failing clauses for k >= 2 (names as in the harness)
 MultiplyFails(pre, post, args) ==
-  LET D == EndsAllowed(args.policy)
-      eOK == {d \in D : EdgesOK(pre, post, args, d)}
-      dOK == {d \in D : DistOK(pre, post, args, d)} IN
+  LET x == Ctx(pre, post, args)
+      D == EndsAllowed(args.policy)
+      ni == NothingInvented(x)
+      eOK == IF ni THEN {d \in D : EdgesOKx(pre, post, x, d)} ELSE {}
+      dOK == IF ni THEN {d \in D : DistOKx(pre, post, x, d)} ELSE {} IN
   (IF NamesOK(pre, post, args) THEN {} ELSE {"C15.names"})
   \cup (IF CopiesOK(pre, post, args) THEN {} ELSE {"C15.copies"})
-  \cup (IF eOK \cap dOK # {} THEN {}
+  \cup (IF ~ni THEN {"C15.edges"} \cup (IF args.policy = "off" THEN {} ELSE {"C15.distribution"})
+        ELSE IF eOK \cap dOK # {} THEN {}
         ELSE (IF eOK = {} THEN {"C15.edges"} ELSE {})
              \cup (IF dOK = {} THEN {"C15.distribution"} ELSE {})
              \cup (IF eOK # {} /\ dOK # {} THEN {"C15.edges", "C15.distribution"} ELSE {}))
-  \cup (IF CountsOK(pre, post, args) THEN {} ELSE {"C15.counts"})
+  \cup (IF CountsOKx(pre, post, x) THEN {} ELSE {"C15.counts"})
   \cup (IF RestOK(pre, post, args) THEN {} ELSE {"C15.rest"})
 
 -----------------------------------------------------------------------------
